@@ -12,6 +12,7 @@ import (
 	"io/ioutil"
 	"log"
 	"os"
+	"os/exec"
 	"sync"
 	"sync/atomic"
 	"time"
@@ -37,6 +38,10 @@ type shOp struct {
 	Op     string            `json:"op"`    // setenv | mk | call | direct | par
 	Kind   string            `json:"kind"`  // mk: "run" | "out"
 	Baked  shSlice           `json:"baked"` // mk
+	Act    string            `json:"act"`   // fs: remove | restore | chmod-x | chmod+x
+	Path   string            `json:"path"`  // fs
+	Epoch  string            `json:"epoch"` // fs: new value of VERIF_FS_EPOCH
+	Probe  []string          `json:"probe"` // call/direct/par: command words to look up right before the call
 	K      string            `json:"k"`
 	V      string            `json:"v"`
 	C      int               `json:"c"`
@@ -80,15 +85,18 @@ type shRep struct {
 }
 
 type shObs struct {
-	Argv    [][]string        `json:"argv"`
-	Out     *string           `json:"out"`
-	Err     string            `json:"err"`
-	Status  int               `json:"status"` // sh.ExitStatus of the returned error (0: nil)
-	Stdout  string            `json:"stdout"` // what reached the process's os.Stdout during this call
-	Snap    [][]string        `json:"snap"`
-	Emap    map[string]string `json:"emap"`
-	EmapNil bool              `json:"emap_nil"`
-	Reps    []shRep           `json:"reps,omitempty"`
+	Argv   [][]string `json:"argv"`
+	Out    *string    `json:"out"`
+	Err    string     `json:"err"`
+	Status int        `json:"status"` // sh.ExitStatus of the returned error (0: nil)
+	Stdout string     `json:"stdout"` // what reached the process's os.Stdout during this call
+	// exec.LookPath's answers for the probed command words at the moment of the call (the operating
+	// system's side of "which program does this word name now"; null: none / not executable)
+	Lookups map[string]*string `json:"lookups,omitempty"`
+	Snap    [][]string         `json:"snap"`
+	Emap    map[string]string  `json:"emap"`
+	EmapNil bool               `json:"emap_nil"`
+	Reps    []shRep            `json:"reps,omitempty"`
 }
 
 type shRes struct {
@@ -173,6 +181,22 @@ func shCapture(path string, f func()) string {
 	return string(b)
 }
 
+func shProbe(names []string) map[string]*string {
+	if len(names) == 0 {
+		return nil
+	}
+	out := map[string]*string{}
+	for _, n := range names {
+		if p, err := exec.LookPath(n); err == nil {
+			pp := p
+			out[n] = &pp
+		} else {
+			out[n] = nil
+		}
+	}
+	return out
+}
+
 func shStatus(err error) int {
 	if err == nil {
 		return 0
@@ -186,7 +210,7 @@ func init() {
 		if err := json.Unmarshal(r.Raw, &q); err != nil {
 			return shRes{Error: err.Error()}
 		}
-		internal := []string{"VERIF_ARGV_OUT", "VERIF_ARGV_GATE", "VERIF_ARGV_PRINT", "MAGEFILE_VERBOSE", "MAGEFILE_DEBUG"}
+		internal := []string{"VERIF_ARGV_OUT", "VERIF_ARGV_GATE", "VERIF_ARGV_PRINT", "MAGEFILE_VERBOSE", "MAGEFILE_DEBUG", "VERIF_FS_EPOCH"}
 		for _, k := range append(append([]string{}, q.Clear...), internal...) {
 			os.Unsetenv(k)
 		}
@@ -223,7 +247,22 @@ func init() {
 		for _, o := range q.Ops {
 			ob := shObs{Argv: [][]string{}}
 			os.Truncate(q.OutFile, 0)
+			ob.Lookups = shProbe(o.Probe)
 			switch o.Op {
+			case "fs":
+				// the program is removed / put back / made (non-)executable between calls; the epoch
+				// variable makes the change visible as a change of the environment
+				switch o.Act {
+				case "remove":
+					os.Rename(o.Path, o.Path+".gone")
+				case "restore":
+					os.Rename(o.Path+".gone", o.Path)
+				case "chmod-x":
+					os.Chmod(o.Path, 0644)
+				case "chmod+x":
+					os.Chmod(o.Path, 0755)
+				}
+				os.Setenv("VERIF_FS_EPOCH", o.Epoch)
 			case "setenv":
 				os.Setenv(o.K, o.V)
 				touched = append(touched, o.K)
